@@ -176,26 +176,27 @@ def mkDocs (file : Nat) : Nat → List Bytes → List ChunkDoc
   | _, [] => []
   | k, d :: ds => ⟨file, k, d⟩ :: mkDocs file (k + 1) ds
 
+/-- the marker part of upload(): insert the upload marker before the first write if tracked
+    (s.marker is assigned before the insert, so it stays set when the insert fails) -/
+def UploadStream.ensureMarker (st : Store) (s : UploadStream) : Store × UploadStream × Option Err :=
+  if s.marker.isNone ∧ s.tracked = true then
+    let r := ({ st with nextId := st.nextId + 1 } : Store).insertMarker ⟨st.nextId, s.id, .uploading, 0, s.chunkSize⟩
+    (r.1, { s with marker := some st.nextId }, r.2)
+  else (st, s, none)
+
 /-- upload(final) -/
 def UploadStream.upload (st : Store) (s : UploadStream) (final : Bool) : Store × UploadStream × Option Err :=
   let r := cut s.chunkSize final (s.buffer.length + 1) s.buffer
   let docs := mkDocs s.id s.chunks r.1
-  -- insert upload marker before first write if tracked (s.marker is assigned before the insert)
-  let (st, s, e) :=
-    if s.marker.isNone ∧ s.tracked = true then
-      let mid := st.nextId
-      let st := { st with nextId := st.nextId + 1 }
-      let (st, e) := st.insertMarker ⟨mid, s.id, .uploading, 0, s.chunkSize⟩
-      (st, { s with marker := some mid }, e)
-    else (st, s, none)
-  match e with
-  | some e => (st, s, some e)
+  let m := s.ensureMarker st
+  match m.2.2 with
+  | some e => (m.1, m.2.1, some e)
   | none =>
-    let (st, e) := if docs.isEmpty then (st, none) else st.insertChunks docs
-    match e with
-    | some e => (st, s, some e)
+    let i := if docs.isEmpty then (m.1, none) else m.1.insertChunks docs
+    match i.2 with
+    | some e => (i.1, m.2.1, some e)
     | none =>
-      (st, { s with buffer := r.2, chunks := s.chunks + r.1.length, length := s.length + r.1.flatten.length }, none)
+      (i.1, { m.2.1 with buffer := r.2, chunks := s.chunks + r.1.length, length := s.length + r.1.flatten.length }, none)
 
 /-- the loop of Write; returns (store, stream, written, err) -/
 def writeLoop : Nat → Store → UploadStream → Bytes → Nat → Store × UploadStream × Nat × Option Err
@@ -228,9 +229,10 @@ def Store.replaceMarker (st : Store) (m : Marker) : Store × Bool :=
 def UploadStream.close (st : Store) (s : UploadStream) : Store × UploadStream × Option Err :=
   if s.closed then (st, s, some .closed)
   else
-    let (st, s, e) :=
-      if s.buffer.length > 0 ∨ (s.tracked = true ∧ s.marker.isNone) then s.upload st true else (st, s, none)
-    match e with
+    let u := if s.buffer.length > 0 ∨ (s.tracked = true ∧ s.marker.isNone) then s.upload st true else (st, s, none)
+    let st := u.1
+    let s := u.2.1
+    match u.2.2 with
     | some e => (st, s, some e)
     | none =>
       if s.tracked then
@@ -259,10 +261,10 @@ def UploadStream.suspend (st : Store) (s : UploadStream) : Store × UploadStream
   if s.tracked = false then (st, s, 0, some .notTracked)
   else if s.closed then (st, s, 0, some .closed)
   else
-    let (st, s, e) := if s.buffer.length > 0 then s.upload st false else (st, s, none)
-    match e with
-    | some e => (st, s, 0, some e)
-    | none => (st, { s with closed := true }, s.length, none)
+    let u := if s.buffer.length > 0 then s.upload st false else (st, s, none)
+    match u.2.2 with
+    | some e => (u.1, u.2.1, 0, some e)
+    | none => (u.1, { u.2.1 with closed := true }, u.2.1.length, none)
 
 /-- the chunk validation loop of Resume: (expected, length) or "found invalid chunk" -/
 def resumeScan (c : Nat) : List ChunkDoc → Nat → Nat → Option (Nat × Nat)
@@ -476,7 +478,7 @@ def writeAll (st : Store) (s : UploadStream) : List Bytes → Store × UploadStr
 /-- OpenUploadStreamWithID; Write each piece; Close -/
 def uploadAll (st : Store) (tracked : Bool) (id c bufCap : Nat) (ws : List Bytes) : Store × Option Err :=
   match writeAll st (UploadStream.new tracked id c bufCap) ws with
-  | (st, s, some e) => (st, some e)
+  | (st, _, some e) => (st, some e)
   | (st, s, none) => let r := s.close st; (r.1, r.2.2)
 
 end Lungo.GridFS
